@@ -12,19 +12,12 @@ import (
 )
 
 func f32Str(v float32) string {
-	b := math.Float32bits(v)
-	if (b>>23)&0xff == 0xff && b&0x7fffff != 0 {
-		return "f32:nan"
-	}
-	return fmt.Sprintf("f32:%d", b)
+	// the bit pattern, also for NaNs (signalling ones included): the value read has the bits that were on the wire
+	return fmt.Sprintf("f32:%d", math.Float32bits(v))
 }
 
 func f64Str(v float64) string {
-	b := math.Float64bits(v)
-	if (b>>52)&0x7ff == 0x7ff && b&0xfffffffffffff != 0 {
-		return "f64:nan"
-	}
-	return fmt.Sprintf("f64:%d", b)
+	return fmt.Sprintf("f64:%d", math.Float64bits(v))
 }
 
 // accessOne performs one accessor call; op = name@addr[/x[/y]]
